@@ -27,6 +27,9 @@ Fixpoint triples (l : list Z) : list (Z * Z * Z) :=
      | [5] pack()
    after the construction and after EVERY op: result line, fields, Unix seconds, datetime
    (empty line = no _datetime attribute) *)
+(* inside a history the exception class is reported as the harness compares it: the ValueError
+   refinements (too short, unicode) as ValueError *)
+Definition canon_code (c : Z) : Z := if (c =? 2) || (c =? 3) then 1 else c.
 Definition cobj_views (o : cobj) : args :=
   [[o_days o; o_ms o]; fl_fields (o_unix o); match o_dt o with Some u => [u] | None => [] end].
 Definition cobj_make (l : list Z) : res cobj :=
@@ -57,7 +60,7 @@ Fixpoint cobj_history (o : cobj) (ops : list (list Z)) : args :=
       | None => [[1; 97]]
       | Some op =>
           let '(r, o') := cobj_step o op in
-          (match r with Ok b => 0 :: b | Err e => [1; err_code e] end) :: cobj_views o' ++ cobj_history o' rest
+          (match r with Ok b => 0 :: b | Err e => [1; canon_code (err_code e)] end) :: cobj_views o' ++ cobj_history o' rest
       end
   end.
 
